@@ -33,7 +33,7 @@ class MemStore:
             fail = True
         if idx in self.plan.get('fail_calls', ()):
             fail = True
-        if path in self.plan.get('dead_paths', ()):
+        if path in {self.key(d) for d in self.plan.get('dead_paths', ())}:
             fail = True
         if fail:
             self.failures.append((idx, path, self.open_count))
@@ -54,6 +54,7 @@ class MemStore:
 
     # -- seams --------------------------------------------------------------------
     def gzip_open(self, path, mode='rb', compresslevel=9, *a, **k):
+        path = self.key(path)
         self._maybe_fail(path)
         raw = self._raw(path, mode)
         if 't' in mode:
@@ -62,12 +63,18 @@ class MemStore:
         return _Gz(raw, mode, compresslevel)
 
     def open(self, path, mode='r', *a, **k):
+        path = self.key(path)
         self._maybe_fail(path)
         raw = self._raw(path, mode)
         return _Text(raw)
 
     def content(self, path):
-        return bytes(self.files[path])
+        return bytes(self.files[self.key(path)])
+
+    @staticmethod
+    def key(path):
+        """one file per location, however the path is spelled (relative, './', doubled separators), as on a file system"""
+        return os.path.abspath(os.fspath(path))
 
 
 class _Raw(io.RawIOBase):
